@@ -78,11 +78,11 @@ pub fn parse_dxtn<'a>(
                 size: 0,
             });
         }
-        if (offset + size) as usize > original_input.len() {
+        if offset as usize + size as usize > original_input.len() {
             error!(
                 "Offset+size of mipmap {} is out of bounds! {} > {}",
                 i,
-                offset + size,
+                offset as u64 + size as u64,
                 original_input.len()
             );
             return Err(Error::OutOfBounds {
@@ -95,7 +95,7 @@ pub fn parse_dxtn<'a>(
         // DXT works on 4x4 blocks per dimension: ceil(w/4) * ceil(h/4) blocks
         let (level_width, level_height) = blp_header.mipmap_size(i);
         let blocks_n = (level_width as usize).div_ceil(4) * (level_height as usize).div_ceil(4);
-        let mut blocks_size = blocks_n * dxtn.block_size();
+        let mut blocks_size = blocks_n.saturating_mul(dxtn.block_size());
         trace!("Dxtn blocks count: {blocks_n}");
         trace!("Dxtn format: {dxtn:?}, block size: {}", dxtn.block_size());
         trace!(
